@@ -4,6 +4,7 @@ import GixModel.Lemmas.C09MidxWinner
 import GixModel.Lemmas.C09Bytes
 import GixModel.Lemmas.C09Total
 import GixModel.Lemmas.C09V1
+import GixModel.Lemmas.C09MTotal
 /-
 C09 — Pack and multi-pack index lookups agree with a linear scan.  PROPERTY THEOREMS ONLY.
 
@@ -481,5 +482,44 @@ theorem midx_entry_at (packs : List PackIn) (hp : Packs packs) :
         x.packAndOffsetAt i = some ((midxEntries packs)[i].pack, (midxEntries packs)[i].offset) := by
   obtain ⟨x, hb, hids, _, _, hat⟩ := midxBuild_spec packs hp.len20 hp.collect_small
   exact ⟨x, hb, hids, hat⟩
+
+/-! ### the multi-pack-index file, byte level: any byte string -/
+
+open GixModel.C09M in
+/-- `multi_index::File::at` (header, chunk table of contents, index names, chunk validation) never
+panics, whatever the bytes. -/
+theorem midx_file_at_total (data : Bytes) : ∃ r, MidxFile.at data = some r := by
+  obtain ⟨r, hr, _⟩ := MidxFile.at_total data
+  exact ⟨r, hr⟩
+
+open GixModel.C09M in
+/-- On ANY accepted multi-pack-index: the fan-out has 256 monotonic entries, the id and offset
+tables hold `num_objects` entries inside the file, `oid_at_index` is panic-free for every entry
+index and `lookup` for every id (fewer than 2^31 objects), reporting only indices below `num_objects`. -/
+theorem accepted_midx_accessors_total (data : Bytes) (f : MidxFile) (h : MidxFile.at data = some (.ok f)) :
+    f.fan.length = 256 ∧ f.lookupOfs + f.numObjects * 20 ≤ data.length ∧ f.offsetsOfs + f.numObjects * 8 ≤ data.length ∧
+    (∀ i, i < f.numObjects → ∃ id, f.oidAt i = some id ∧ id.length = 20) ∧
+    (f.numObjects < 2147483648 → ∀ id : Bytes, id ≠ [] →
+      ∃ r, f.lookup id = some r ∧ ∀ i, r = some i → i < f.numObjects) := by
+  obtain ⟨r, hr, h2⟩ := MidxFile.at_total data
+  rw [h] at hr; injection hr with hr
+  obtain ⟨hd, ha⟩ := h2 f hr.symm
+  refine ⟨ha.fanLen, by rw [← hd]; exact ha.lookupIn, by rw [← hd]; exact ha.offsetsIn,
+    fun i hi => MidxFile.oidAt_total ha hi, fun hs id hid => MidxFile.lookup_total ha hs id hid⟩
+
+open GixModel.C09M in
+/-- `pack_id_and_pack_offset_at_index` on an accepted multi-pack-index succeeds unless — exactly —
+the 32-bit offset has the high bit, there is a large-offset chunk, and the 64-bit slot the entry
+names lies past the end of the file (the accessor has no error channel: it panics). -/
+theorem accepted_midx_offset_at (data : Bytes) (f : MidxFile) (h : MidxFile.at data = some (.ok f))
+    (i : Nat) (hi : i < f.numObjects) :
+    ∃ pk v, (slice f.data (f.offsetsOfs + i * 8) 4).bind readU32 = some pk ∧
+      (slice f.data (f.offsetsOfs + i * 8 + 4) 4).bind readU32 = some v ∧
+      ((∃ r, f.packAndOffsetAt i = some r) ↔
+        ¬ (v &&& HIGH_BIT = HIGH_BIT ∧ ∃ lo, f.largeOfs = some lo ∧ ¬ lo + (v ^^^ HIGH_BIT) * 8 + 8 ≤ f.data.length)) := by
+  obtain ⟨r, hr, h2⟩ := MidxFile.at_total data
+  rw [h] at hr; injection hr with hr
+  obtain ⟨_, ha⟩ := h2 f hr.symm
+  exact MidxFile.packAndOffsetAt_spec ha hi
 
 end GixModel.Props.C09
